@@ -690,7 +690,7 @@ func (s *scanner) stateAnyAnnotationStart(c byte) (st state, err error) {
 }
 
 func (s *scanner) stateInlineAnnotation(c byte) (state, error) {
-	if bytes.IsBlank(c) {
+	if c == ' ' || c == '\t' { // not bytes.IsBlank: a line break ends an empty comment
 		return scanSkip, nil
 	}
 
